@@ -500,7 +500,10 @@ func normalizePath(dst, src []byte) []byte {
 	dst = dst[:0]
 	dst = addLeadingSlash(dst, src)
 	dst = decodeArgAppendNoPlus(dst, src)
+	return cleanPath(dst)
+}
 
+func cleanPath(dst []byte) []byte {
 	// Windows server need to replace all backslashes with
 	// forward slashes to avoid path traversal attacks.
 	if filepath.Separator == '\\' {
